@@ -175,7 +175,27 @@ theorem C20_denominations_exact (v : Nat) (hv : 0 < v) :
 theorem C20_conv_pipeline_unchanged :
     Gen.convPipelineFingerprint = "a6c2cf54fadb41919fec079755f44cc72cbb77a136a727ec580cd4e4ad0b7240" := by decide
 
+/-! ### The conversion volume of a prime block (the quantity its cubic discount is read from) -/
+
+/-- **C20 (volume additive)** the volume of a block is the sum over its inbound ETXs: no ETX changes what another
+contributes. -/
+theorem C20_volume_append (r : Rate) (a b : List VolItem) : volume r (a ++ b) = volume r a + volume r b := by
+  simp [volume, List.map_append, List.sum_append]
+
+/-- **C20 (volume order independent)** it does not depend on the order in which the ETXs are listed. -/
+theorem C20_volume_perm (r : Rate) (a b : List VolItem) (h : a.Perm b) : volume r a = volume r b := by
+  unfold volume
+  exact (h.map (volumeOf r)).sum_nat
+
+/-- **C20 (volume counts conversions only, each at the one rate)** every Quai->Qi conversion counts with the Quai it
+carries, every Qi->Quai conversion with its Qi valued at the block's rate, everything else with nothing. -/
+theorem C20_volume_cons (r : Rate) (x : VolItem) (l : List VolItem) :
+    volume r (x :: l) = (match x with | .toQi q => q | .toQuai u => r.quaiR * u / r.qiR | .other => 0) + volume r l := by
+  cases x <;> simp [volume, volumeOf, qiToQuai]
+
 /-! ### Non-vacuity -/
+example : volume { quaiR := 7, qiR := 2 } [.toQi 100, .other, .toQuai 9, .toQi 5] = 136 := by decide
+
 example : repriced { original := 1000, discounted := 900, actual := 1000, afterKQuai := 810, kQuaiApplies := true } = 810 := by decide
 example : findMinDenoms Gen.denominations 1234567 = [(11, 1), (10, 2), (9, 1), (8, 1), (6, 4), (5, 1), (3, 1), (2, 1), (1, 1), (0, 2)] := by decide
 example : denomTotal Gen.denominations (findMinDenoms Gen.denominations 1234567) = 1234567 := by decide
